@@ -164,7 +164,7 @@ class G:
             cands = [i for i, n in enumerate(self.nodes) if n["kind"] != "sink"]
             if len(cands) < 2:
                 return
-            m = min(len(cands), r.choice([2, 2, 3]))
+            m = min(len(cands), r.choice([2, 2, 3, 2, 3, 1]))        # (a combining node over a single upstream is legal too)
             ups = r.sample(cands, m)
             if r.random() < 0.5:
                 ups.sort()
